@@ -141,10 +141,16 @@ pub(super) async fn terminate_child<'a>(
                         let _ = sender.send(());
                     }
                     RunUnitRequest::Signal(SignalRequest::Continue) => {
-                        // Possible to receive a Continue at the beginning of execution.
-                        if !sleep.is_paused() {
+                        // Possible to receive a Continue at the beginning of execution, or with
+                        // only the unit's stopwatch paused (if termination began while the unit
+                        // was stopped). Resume exactly the timers that are paused.
+                        if stopwatch.is_paused() {
                             stopwatch.resume();
+                        }
+                        if sleep.is_paused() {
                             sleep.as_mut().resume();
+                        }
+                        if waiting_stopwatch.is_paused() {
                             waiting_stopwatch.resume();
                         }
                         job_control_child(child, JobControlEvent::Continue);
